@@ -9,8 +9,8 @@ from auditok.exceptions import AudioParameterError
 
 ID = "C17"
 LEVEL = "exploration"
-TIERS = {"quick": {"shards": 16, "budget_s": 25, "random": 3000},
-         "thorough": {"shards": 16, "budget_s": 420, "random": 150000}}
+TIERS = {"quick": {"shards": 16, "budget_s": 120, "random": 3000},
+         "thorough": {"shards": 16, "budget_s": 900, "random": 150000}}
 RULE = ("Random operand trees of + / sum / * n / n * / join / make_silence and division by every n in 1..len+3 on real "
         "AudioRegion objects (widths 1/2/4, 1-4 channels, 0..30 samples).  Oracle REGION (bytes-level list operations): "
         "result bytes == concatenation / repetition / interleaving; make_silence(d) == round(d*rate) zero samples; r/n -> "
